@@ -270,8 +270,10 @@ def r3_coefficients(ctx):
 
 def r5_sorted(ctx):
     """order independence: R1+R2 are symmetric under relabelling once all per-channel arrays are permuted alike"""
-    from .c01 import init_permutation
-    init_permutation(ctx, 'R5.order-independence')
+    from .c01 import r2_base
+    from .common import proxy
+    r2_base(proxy(ctx, 'R5'))          # constructor permutation + field-by-field mapping of select_channels / __add__
+    ctx.need('R5.init-permutation', 16)
 
 
 
